@@ -642,8 +642,43 @@ def _flip(t):
     return t
 
 
+def r6(ctx, fs):
+    rid = 'C15.R6'
+    ctx.rule(rid, 'smt::rational: `a op= b` distinguishes exactly the cases that `a op b` distinguishes (zero / infinite / integer special cases, same tests in the same roles), for + with a rational '
+                  'and with an integer operand; the general case of += normalises the result', floor=3)
+    from .. import dual
+    R = 'smt::rational::'
+    for op in ('operator+',):       # the two forms of * test their special cases in a different order and compute the sign differently: not comparable this way
+        B = {tuple(p['t'] for p in f['params']): f for f in fs.fns_named(R + op) if len(f['params']) == 1 and f.get('class') == 'smt::rational'}
+        C = {tuple(p['t'] for p in f['params']): f for f in fs.fns_named(R + op + '=') if len(f['params']) == 1}
+        for sig, fb in sorted(B.items()):
+            fc = C.get(sig)
+            if fc is None:
+                continue
+            gb = {frozenset(p[0]) for p in dual.Summ(fs, fb, subst=False).summary()}
+            gc = {frozenset(p[0]) for p in dual.Summ(fs, fc, subst=False).summary()}
+            ctx.instance(rid, [fb.id, 'cases'], {'binary': fb.id, 'compound': fc.id, 'cases': len(gb), 'same_cases': gb == gc})
+            if gb != gc:
+                ob, oc = sorted(gb - gc, key=repr), sorted(gc - gb, key=repr)
+                ctx.finding(rid, fc.id, 'cases', 'rational::%s= and rational::%s distinguish different cases (one of them is wrong): only in %s: %s ; only in %s=: %s' % (
+                    op, op, op, [sorted(dual._show_cond(c) for c in g) for g in ob][:2], op, [sorted(dual._show_cond(c) for c in g) for g in oc][:2]), loc=fc.loc,
+                    expect='the same special cases in both forms')
+    f = fs.fn(R + 'operator+=', params=['rational'])
+    env = LocalEnv(f)
+    # the general case (the path that computes the common denominator) normalises
+    ok = False
+    for p in enum_paths(f.body):
+        names = [m.get('callee_name') for st in p.stmts for m in walk(st) if m.get('callee_name')]
+        if 'std::lcm' in names:
+            ok = R + 'normalize' in names
+    ctx.instance(rid, [f.id, 'normalised'], {'general_case_normalises': ok})
+    if not ok:
+        ctx.finding(rid, f.id, 'normalised', 'rational::operator+=: the general case does not normalise its result: equal values get different representations (1/2 + 1/2 != 1)', loc=f.loc)
+
+
 def run(ctx):
     fs = ctx.facts('P')
     r1(ctx, fs)
     r4(ctx, fs)
     r5(ctx, fs)
+    r6(ctx, fs)
